@@ -719,6 +719,8 @@ pub struct SearchResult {
     pub stats: Stats,
     pub violations: Vec<Violation>,
     pub harness_errors: Vec<String>,
+    /// runs whose epoch process had to be killed by the watchdog (no verdict from those runs)
+    pub hung_runs: Vec<String>,
     pub samples: Vec<Value>,
     pub det_checked: u64,
     pub det_mismatch_harness: u64,
@@ -807,6 +809,7 @@ pub fn search(cfg: &SearchConfig, w: &Workload, refs: &References) -> SearchResu
     let stop = AtomicBool::new(false);
     let merged: Mutex<Stats> = Mutex::new(Stats::new());
     let violations: Mutex<Vec<Violation>> = Mutex::new(vec![]);
+    let hangs: Mutex<Vec<String>> = Mutex::new(vec![]);
     let errors: Mutex<Vec<String>> = Mutex::new(vec![]);
     let samples: Mutex<BTreeMap<u64, Value>> = Mutex::new(BTreeMap::new());
     let det_checked = AtomicU64::new(0);
@@ -816,6 +819,7 @@ pub fn search(cfg: &SearchConfig, w: &Workload, refs: &References) -> SearchResu
         for slot in 0..cfg.workers {
             let (next, stop, merged, violations, errors, samples) = (&next, &stop, &merged, &violations, &errors, &samples);
             let (det_checked, det_mismatch_harness) = (&det_checked, &det_mismatch_harness);
+            let hangs = &hangs;
             s.spawn(move || {
                 let scratch = Scratch::new(&cfg.scratch_base, slot);
                 let mut stats = Stats::new();
@@ -831,6 +835,18 @@ pub fn search(cfg: &SearchConfig, w: &Workload, refs: &References) -> SearchResu
                     let (plan, swarm) = gen_plan(&mut rng, w);
                     let log = match exec_plan(&cfg.exe, &plan, &scratch, false) {
                         Ok(l) => l,
+                        Err(e) if e.0.contains("watchdog timeout") => {
+                            // an epoch process that never finished (e.g. two expansions parked by the
+                            // scheduler inside a critical section a changed macro introduced): no verdict
+                            // from THIS run; the search goes on, other runs may still show a divergence
+                            let mut h = hangs.lock().unwrap();
+                            h.push(format!("run {i}: {}", e.0));
+                            if h.len() >= 6 {
+                                stop.store(true, Ordering::SeqCst);
+                                break;
+                            }
+                            continue;
+                        }
                         Err(e) => {
                             errors.lock().unwrap().push(format!("run {i}: {}", e.0));
                             stop.store(true, Ordering::SeqCst);
@@ -904,6 +920,7 @@ pub fn search(cfg: &SearchConfig, w: &Workload, refs: &References) -> SearchResu
         stats: merged.into_inner().unwrap(),
         violations: violations.into_inner().unwrap(),
         harness_errors: errors.into_inner().unwrap(),
+        hung_runs: hangs.into_inner().unwrap(),
         samples,
         det_checked: det_checked.load(Ordering::SeqCst),
         det_mismatch_harness: det_mismatch_harness.load(Ordering::SeqCst),
